@@ -17,6 +17,9 @@ build() {
     fi
     "$B/mkoverlay" "$REPO" "$VERIF_DIR/mc/shim/vsync/vsync.go" "$B" 2>"$B/mkoverlay.log" || { cat "$B/mkoverlay.log" >&2; exit 2; }
     go build -overlay "$B/overlay.json" -o "$B/stfsmc" ./cmd/stfsmc || exit 2
+    if [ "${WANT_SELFTEST:-0}" = 1 ]; then
+      go test ./shim/vsync/ >"$B/selftest.log" 2>&1 || { cat "$B/selftest.log" >&2; echo "scheduler self-test failed" >&2; exit 2; }
+    fi
     if [ "${WANT_RACE:-0}" = 1 ]; then
       CGO_ENABLED=1 go build -race -overlay "$B/overlay.json" -o "$B/stfsmc-race" ./cmd/stfsmc || { echo "race build failed (race pass will be skipped)" >&2; rm -f "$B/stfsmc-race"; }
     fi
@@ -24,6 +27,7 @@ build() {
   ) 9>"$B/.lock"
 }
 case "${1:-}" in build|C11) WANT_RACE=1 ;; esac
+case "${1:-}" in build) WANT_SELFTEST=1 ;; esac
 case "${1:-}" in
   build) build; exit $? ;;
   replay) build || { echo "BUILD FAILED (not a verdict)" >&2; exit 2; }; exec "$B/stfsmc" replay "$2" ;;
